@@ -129,6 +129,22 @@ def loop_source_order_stmt : Prop :=
     writesOf src (frun drp h).thist =
       ((specFeed drp src.1 src.2.1 src.2.2 (flat drp h)).take ((frun drp h).done src)).map asTriple
 
+/-- Defect of the snapshot (repaired by the `fix:` commit of findings/C02.txt): on a BATCH edge the loopback node ignored its
+`measurement` property — `batch|query()|kapacitorLoopback().measurement('m')` wrote every point under the name of the incoming
+batch, so a task subscribed with `from().measurement('m')` never got them, whereas the documentation of the property (and the stream
+path) rename. The repaired code and the spec deliver (replayed on the real code by
+corpus/C02/batch-loopback-measurement-property.ops). -/
+theorem old_batch_loopback_ignores_measurement :
+    let L : Loop := { db := "lo", rp := "lr", name := "m" }
+    let B : TaskDef := ⟨"B", [("lo", "lr")], [{ name := "m" }]⟩
+    let r : RawPoint := ⟨1, "x", [], {}⟩
+    (L.batchPointOld "bat" r).name = "bat" ∧
+    (forkAll (startTask (init "") B) [L.batchPointOld "bat" r]).delivered "B" 0 = [] ∧
+    (docBatchWrite L "bat" r).name = "m" ∧
+    specDelivered "" "B" 0 (flat "" [.ext (.start B), .batch "X" L "bat" [r]]) = [1] ∧
+    (lrun "" [.ext (.start B), .batch "X" L "bat" [r]]).tm.delivered "B" 0 = [1] := by
+  decide
+
 /-- **A loop into the task's own pair is refused**: `StartTask` of a definition one of whose loopback nodes writes into a
 (database, retention policy) the task declares changes nothing — the task does not become enabled, no fork is made. -/
 theorem self_loop_refused (s : LTM) (d : TaskDef) (f : From) (L : Loop)
@@ -235,7 +251,7 @@ def loopSample : List LOp :=
    .ext (.write "d" "" [⟨1, "cpu", [], { time := 1700000000300000000, tags := [("dc", "x"), ("host", "a")] }⟩, ⟨2, "mem", [], {}⟩]),
    .ext (.write "d" "autogen" [⟨3, "cpu", [], { time := 1700000000900000000 }⟩]),
    .loop "A" 0 0 1,
-   .batch "X" { db := "lo", rp := "lr", name := "ignored" } "bat" [⟨4, "m", [], {}⟩],
+   .batch "X" { db := "lo", rp := "lr", name := "renamed" } "bat" [⟨4, "m", [], {}⟩],
    .ext (.stop "A"),
    .loop "A" 0 0 5,
    .ext (.write "d" "autogen" [⟨5, "cpu", [], {}⟩]),
